@@ -1130,6 +1130,16 @@ def c14_10(ctx: Ctx) -> RuleResult:
                     guarded = True
             if it[2] and a[0] == "cmp" and a[1] in ("<", "!=") and C0 in (a[2], a[3]) and contains(a, lambda y: y[0] == "call" and y[1] in (("global", "numpy.count_nonzero"), ("global", "numpy.sum"))):
                 guarded = True
+            # the size of the assembled system itself: `vector.size == 0` / `len(matrix) == 0` excluded, `matrix.shape[0] > 0` ...
+            raw = [x for x in positional_args(s, X.at(f, c))[:2] if x is not None]
+            sizes = [norm(("attr", x, "size")) for x in raw] + [norm(("call", ("builtin", "len"), (x,), ())) for x in raw] + \
+                    [norm(("sub", ("attr", x, "shape"), ("const", 0))) for x in raw]
+            if a[0] == "cmp" and C0 in (a[2], a[3]):
+                other_ = a[3] if a[2] == C0 else a[2]
+                if other_ in sizes and ((a[1] == "==" and not it[2]) or (a[1] == "!=" and it[2]) or (a[1] == "<" and a[2] == C0 and it[2]) or (a[1] == "<=" and a[3] == C0 and not it[2])):
+                    guarded = True
+            if it[2] and a in sizes:
+                guarded = True
         res.add(f, c, "the solver is called only where at least one row (successful perturbation of an active realization) is left", guarded,
                 "" if guarded else "the system can be empty (all realizations failed with realization_min_success = 0, or all perturbations failed): the solver raises ValueError (argmin of an empty sequence) instead of the run ending with TOO_FEW_REALIZATIONS",
                 construct=f"{f.name}: non-empty system")
